@@ -213,6 +213,34 @@ func VerifC19NulSeparated() {
 	verifCover("C19/nul/end")
 }
 
+// VerifC19NulExact: `yq -0 .a` (unwrapped scalars, NUL separated) writes each string result byte for byte followed
+// by one NUL — whatever the value ends in (a carriage return, a line feed, both); a value that contains a NUL itself
+// is an error, not a shortened or split result.
+func VerifC19NulExact() {
+	v1 := verifStr("v1", verifParam("nullen", 2), "\x00\x7f")
+	v2 := verifStr("v2", 1, "\x00\x7f")
+	prefs := NewDefaultYamlPreferences()
+	prefs.UnwrapScalar = true
+	var text strings.Builder
+	w, b := 0, 0
+	printer := NewPrinter(NewYamlEncoder(prefs), NewSinglePrinterWriter(c19Writer{writes: &w, bytes: &b, text: &text}))
+	printer.SetNulSepOutput(true)
+	res, err := vEval(vParse(".[]"), vDoc(vSeq(vStr(v1), vStr(v2))))
+	if err != nil {
+		verifFail("C19/eval")
+	}
+	errP := printer.PrintResults(res)
+	hasNul := strings.IndexByte(v1, 0) >= 0 || strings.IndexByte(v2, 0) >= 0
+	if errP != nil {
+		verifAssert(hasNul, "C19/nul-separated-output-fails-on-a-value-without-NUL")
+		verifCover("C19/nulexact/error")
+		return
+	}
+	verifAssert(!hasNul, "C19/nul-separated-output-accepts-a-value-with-NUL")
+	verifAssert(verifEqStr(text.String(), v1+"\x00"+v2+"\x00"), "C19/nul-separated-output-is-not-the-value-byte-for-byte")
+	verifCover("C19/nulexact/end")
+}
+
 // VerifC19ExitStatusAlias: -e looks through aliases: a result that is an alias of false or null is no match.
 func VerifC19ExitStatusAlias() {
 	target, truthy := c19Scalar("t")
